@@ -455,6 +455,38 @@ func (st *c08State) batch(vals []uint32) {
 			}
 		}
 	}
+	// --- arc radii: coordinates like any other (sign included), at either resolution
+	for variant := 0; variant < 2; variant++ {
+		var e encode.Encoder
+		hi := variant == 0
+		e.HighResolutionCoordinates = hi
+		e.StartPath(0, 0, 0)
+		for _, u := range vals {
+			e.RelArcTo(b32f(u), b32f(u), 0.25, false, true, 3, 4)
+		}
+		e.ClosePathEndPath()
+		out, err := e.Bytes()
+		route := "radius-lo"
+		if hi {
+			route = "radius-hi"
+		}
+		if st.parseOut(route, out, err, vals) && st.expectNums(route, 2+6*n, vals) {
+			for i, u := range vals {
+				for k := 0; k < 2; k++ {
+					x := st.nums[2+6*i+k]
+					if x.kind != 'c' {
+						w.Fail(route+":operand-kinds", "arc operand kinds out of order", c08Case{Route: route, Bits: []uint32{u}})
+						break
+					}
+					kind := byte('c')
+					if !hi {
+						kind = 'q'
+					}
+					st.judge(route, kind, b32f(u), x.n, x.f)
+				}
+			}
+		}
+	}
 	// --- SetNReg: shortest of three
 	{
 		var e encode.Encoder
